@@ -177,13 +177,22 @@ def inspect_frame(frame: FrameType) -> FrameDetails:
             # we read from iframe_raw. All accesses to the
             # InterpreterFrame object are kept within this
             # consistency-checked loop for that reason.
+            # Everything we compare the raw fields against is computed *before*
+            # the InterpreterFrame pointer is fetched: each call is a point where
+            # the frame's thread may run, return from the frame and release the
+            # memory the pointer refers to. From here to the f_lasti check below
+            # there must be no call.
+            globals_id = id(frame.f_globals)
+            builtins_id = id(frame.f_builtins)
+            code_id = id(frame.f_code)
+            frame_id = id(frame)
             iframe_raw = frame_raw.f_frame.contents
-            assert iframe_raw.f_globals == id(frame.f_globals)
-            assert iframe_raw.f_builtins == id(frame.f_builtins)
-            assert iframe_raw.f_code == id(frame.f_code)
+            assert iframe_raw.f_globals == globals_id
+            assert iframe_raw.f_builtins == builtins_id
+            assert iframe_raw.f_code == code_id
             # frame_obj is null if this iframe is owned by the frame object (thus
             # physically contained within it), to avoid a circular reference
-            assert iframe_raw.frame_obj in (0, id(frame))
+            assert iframe_raw.frame_obj in (0, frame_id)
 
             # Figure out what portion of the stack is actually valid
             stacktop_copy = iframe_raw.stacktop
